@@ -366,7 +366,11 @@ fn main() {
                 } else if m.kind != SegKind::Err && m.toks != r.toks {
                     e.1 += 1;
                     let (at, a, b) = first_diff(&m.toks, &r.toks);
-                    push(i as i64, &m.label, "tokens", &format!("@{at}: {a}"), &format!("@{at}: {b}"));
+                    // does the impl header (generics, trait, self type, where-clause) differ, or only the body?
+                    let hm = m.toks.split(" {").next().unwrap_or("");
+                    let hr = r.toks.split(" {").next().unwrap_or("");
+                    let kind = if hm != hr { "tokens" } else { "tokens-body" };
+                    push(i as i64, &m.label, kind, &format!("@{at}: {a}"), &format!("@{at}: {b}"));
                 }
             }
         } else {
